@@ -191,6 +191,17 @@ func c17Gen(r *vc.Rand, name, ver string, hasSecond bool, forceFault string) *c1
 	if forceFault != "" {
 		c.Fault = forceFault
 	}
+	keep := false
+	if mode == "autocommit-dedicated-conn" && forceFault == "" && r.Intn(2) == 0 {
+		// retry-style code on a dedicated connection: the statement whose branch is refused fails, the business
+		// function carries on with the next statement on the same connection
+		c.Fault, keep = "register-refused", true
+		for i := range c.Groups {
+			if c.Groups[i].Pinned {
+				c.Groups[i].KeepGoing = true
+			}
+		}
+	}
 	c.P2On = "holder"
 	// on servers that make the client keep the phase-one connection, a kept connection is only given up after the
 	// hold time: fewer such cases, or the small pool of the holder runs dry
@@ -199,6 +210,9 @@ func c17Gen(r *vc.Rand, name, ver string, hasSecond bool, forceFault string) *c1
 	}
 	sort.Strings(kinds)
 	c.Feat = map[string]string{"mode": mode, "branches": fmt.Sprint(ng), "stmts": strings.Join(kinds, ","), "fault": c.Fault, "outcome": c.Outcome, "phase_two_on": c.P2On, "version": ver}
+	if keep {
+		c.Feat["after_failure"] = "next-statement"
+	}
 	return c
 }
 
@@ -538,6 +552,13 @@ func c17Run(r *vc.Run, e *c17Env, c *c17Case) bool {
 			viol("branch-left-dangling", fmt.Sprintf("'%s' is still %s in the database after phase two (%v)", id, st, trace))
 		}
 		_ = prepared
+	}
+	// every business statement of the global transaction runs inside a branch: none makes its rows durable by itself
+	for _, j := range journal {
+		if (j.Class == "proxied" || j.Class == "app") && stmtIsDML(j) && j.Err == nil && len(j.Committed) > 0 {
+			viol("statement-outside-branch", fmt.Sprintf("a statement of the global transaction was committed by itself, outside any XA branch (no phase two can reach it): %s", clipStr(j.SQL, 160)))
+			break
+		}
 	}
 	// outcome vs data
 	changed := false
